@@ -53,6 +53,9 @@ type c20PerformImpl struct {
 	Results    int              `json:"results"`     // len(loader.Results())
 	LoadedTxs  int              `json:"loaded_txs"`  // transmits put into blocks
 	LoadedPerf int              `json:"loaded_perf"` // results in the reports put into blocks
+	Hang       bool             `json:"hang"`        // Load did not return within 30 virtual seconds
+	HangBlock  int              `json:"hang_block"`  // 1-based index of the perform-carrying block whose Load hung
+	Leak       bool             `json:"leak"`
 }
 
 func c20Report(round, n int) []byte {
@@ -76,6 +79,15 @@ func c20RunPerform(t *testing.T, in c20Input) (impl c20PerformImpl) {
 		impl.Err = "harness: " + err.Error()
 		return impl
 	}
+	defer func() {
+		if p := recover(); p != nil {
+			if strings.Contains(fmt.Sprint(p), "blocked goroutines remain") {
+				impl.Leak = true // a Load that never returned is still parked in the bubble
+				return
+			}
+			panic(p)
+		}
+	}()
 	synctest.Test(t, func(t *testing.T) {
 		var out bytes.Buffer
 		var mu sync.Mutex
@@ -106,13 +118,40 @@ func c20RunPerform(t *testing.T, in c20Input) (impl c20PerformImpl) {
 		}
 		incs := append([]c20Inc(nil), in.Performs...)
 		sort.SliceStable(incs, func(a, b int) bool { return incs[a].AtMs < incs[b].AtMs })
+		at := 0
+		if len(incs) > 0 {
+			at = incs[len(incs)-1].AtMs
+		}
+		for k := 0; k < in.TailBlocks; k++ {
+			at += 53
+			incs = append(incs, c20Inc{AtMs: at, N: int64(in.TailN)})
+		}
+		closeMs := in.CloseMs
+		if in.TailBlocks > 0 {
+			closeMs = at + 437
+		}
+		// the block source calls Load while it holds its lock: a Load that does not return stops block production
+		// for good.  Watchdog in VIRTUAL time: with every goroutine blocked the bubble's clock jumps to the timer.
+		load := func(block *chain.Block) bool {
+			done := make(chan struct{})
+			go func() { tl.Load(block); close(done) }()
+			select {
+			case <-done:
+				return true
+			case <-time.After(30 * time.Second):
+				return false
+			}
+		}
 		for i, inc := range incs {
 			sleepUntil(inc.AtMs)
 			if err := tl.Transmit(fmt.Sprintf("node-%d", i%4), c20Report(i+1, int(inc.N)), uint64(i+1)); err != nil {
 				impl.Err = "transmit: " + err.Error()
 			}
 			block := chain.Block{Number: big.NewInt(int64(1000 + i))}
-			tl.Load(&block)
+			if !load(&block) {
+				impl.Hang, impl.HangBlock = true, i+1
+				break
+			}
 			for _, tx := range block.Transactions {
 				if pt, ok := tx.(chain.PerformUpkeepTransaction); ok {
 					impl.LoadedTxs += len(pt.Transmits)
@@ -124,10 +163,14 @@ func c20RunPerform(t *testing.T, in c20Input) (impl c20PerformImpl) {
 			}
 			synctest.Wait()
 		}
-		sleepUntil(in.CloseMs)
+		if !impl.Hang {
+			sleepUntil(closeMs)
+		}
 		_ = p.Close()
 		impl.Success = <-verdict
-		impl.Results = len(tl.Results())
+		if !impl.Hang {
+			impl.Results = len(tl.Results()) // Results needs the loader's lock, which a hung Load keeps
+		}
 		time.Sleep(1500 * time.Millisecond)
 		mu.Lock()
 		text := c20StripANSI(out.String())
@@ -208,6 +251,11 @@ func c20GenPerform(r *Rng) (c20Input, error) {
 		at += 150
 	}
 	in.CloseMs = at + 437 + r.Intn(500)
+	if r.Chance(12) {
+		// a long run: performs keep arriving for several hundred blocks, typically after the counter has wound down
+		// (total reached, or a negative assertion tripped by the first of them)
+		in.TailBlocks, in.TailN = []int{101, 120, 250, 400}[r.Intn(4)], r.Range(1, 2)
+	}
 	return in, nil
 }
 
@@ -504,4 +552,119 @@ func c20LateTransmitPlan() config.SimulationPlan {
 			{Event: config.Event{Type: config.LogTriggerEventType, TriggerBlock: big.NewInt(genesis + 18)}, TriggerValue: "test_trigger_event"},
 		},
 	}
+}
+
+// ---------------------------------------------------------------- collector stress (thorough tier)
+
+// The summary (Group.ReportResults -> ContractEventCollector.Data) runs while the node services are still live
+// and keep recording checks (WrappedContractCollector.CheckID).  Un-timed stress through the exported API, in a
+// child process (an unsynchronised map access ends a Go process with an unrecoverable fatal error): `nodes`
+// goroutines record every (upkeep, block) pair of an n_upkeep × n_block grid, `reads` calls of Data() run
+// concurrently; a final Data() must list every upkeep with exactly n_block distinct blocks.
+
+const c20CollectorOutEnv = "C20_COLLECTOR_OUT"
+
+type c20CollectorResult struct {
+	IDs    int  `json:"ids"`
+	MinLen int  `json:"min_len"`
+	MaxLen int  `json:"max_len"`
+	Dup    bool `json:"dup"`
+	Done   bool `json:"done"`
+	// filled by the parent
+	Crash     string   `json:"crash"`
+	CrashAt   string   `json:"crash_at"`
+	Races     int      `json:"races"`
+	RaceSites []string `json:"race_sites"`
+	RaceBuild bool     `json:"race_build"`
+	WallMs    int64    `json:"wall_ms"`
+}
+
+// TestC20CollectorChild is the helper run in the child process only.
+func TestC20CollectorChild(t *testing.T) {
+	outPath := os.Getenv(c20CollectorOutEnv)
+	if outPath == "" {
+		t.Skip("helper for TestC20 (child process only)")
+	}
+	var in c20Input
+	if err := json.Unmarshal([]byte(os.Getenv("C20_COLLECTOR_IN")), &in); err != nil {
+		t.Fatal(err)
+	}
+	col := telemetry.NewContractEventCollector(log.New(io.Discard, "", 0))
+	for n := 0; n < in.Nodes; n++ {
+		_ = col.AddNode(fmt.Sprintf("n%d", n))
+	}
+	var wg sync.WaitGroup
+	start := make(chan struct{})
+	for n := 0; n < in.Nodes; n++ {
+		wg.Add(1)
+		go func(n int) {
+			defer wg.Done()
+			w := col.ContractEventCollectorNode(fmt.Sprintf("n%d", n))
+			<-start
+			for i := 0; i < in.Rounds; i++ {
+				j := i + n*17
+				w.CheckID(fmt.Sprintf("upkeep-%d", j%in.NUpkeep), uint64(1000+(j/in.NUpkeep)%in.NBlock), [32]byte{})
+			}
+		}(n)
+	}
+	close(start)
+	for i := 0; i < in.Reads; i++ {
+		col.Data()
+	}
+	wg.Wait()
+	_, lookup := col.Data()
+	res := c20CollectorResult{IDs: len(lookup), MinLen: -1, Done: true}
+	for _, blocks := range lookup {
+		seen := map[string]bool{}
+		for _, b := range blocks {
+			if seen[b] {
+				res.Dup = true
+			}
+			seen[b] = true
+		}
+		if res.MinLen < 0 || len(blocks) < res.MinLen {
+			res.MinLen = len(blocks)
+		}
+		if len(blocks) > res.MaxLen {
+			res.MaxLen = len(blocks)
+		}
+	}
+	b, _ := json.Marshal(res)
+	_ = os.WriteFile(outPath, b, 0o644)
+}
+
+func c20RunCollector(in c20Input, exe string, raceBuild bool) c20CollectorResult {
+	res := c20CollectorResult{RaceSites: []string{}, RaceBuild: raceBuild}
+	dir, err := os.MkdirTemp("", "c20collector")
+	if err != nil {
+		res.Crash = "harness: " + err.Error()
+		return res
+	}
+	defer os.RemoveAll(dir)
+	outPath := filepath.Join(dir, "result.json")
+	inJSON, _ := json.Marshal(in)
+	cmd := exec.Command(exe, "-test.run", "^TestC20CollectorChild$", "-test.timeout", "5m")
+	cmd.Env = append(os.Environ(), c20CollectorOutEnv+"="+outPath, "C20_COLLECTOR_IN="+string(inJSON), "VERIF_OUT="+filepath.Join(dir, "unused.jsonl"))
+	var buf bytes.Buffer
+	cmd.Stdout, cmd.Stderr = &buf, &buf
+	t0 := time.Now()
+	runErr := cmd.Run()
+	if b, err := os.ReadFile(outPath); err == nil {
+		_ = json.Unmarshal(b, &res)
+	}
+	res.RaceSites, res.RaceBuild = []string{}, raceBuild
+	res.WallMs = time.Since(t0).Milliseconds()
+	out := buf.String()
+	for _, rep := range c20RaceReports(out) {
+		if !rep.ignored {
+			res.Races++
+			res.RaceSites = append(res.RaceSites, rep.site)
+		}
+	}
+	sort.Strings(res.RaceSites)
+	res.Crash, res.CrashAt, _ = c20CrashSite(out)
+	if ee, ok := runErr.(*exec.ExitError); ok && res.Crash == "" && res.Races == 0 {
+		res.Crash = fmt.Sprintf("child exit %d: %s", ee.ExitCode(), c20Tail(out, 300))
+	}
+	return res
 }
